@@ -128,8 +128,9 @@ package couchbase
 
 //@ func NewClient
 //@ params config
-//@ trusted
+//@ props C18
 //@ ensures result != nil
+//@ ensures as(result, "*client").config == config && as(result, "*client").agent == nil && as(result, "*client").dcpAgent == nil
 //@ modifies nothing
 
 // ---------- server version as reported (C18) ----------
